@@ -183,6 +183,8 @@ def pyref(ops):
             O[o]["ext"] = False
         elif kind == "F":
             ref_freeze(O, o)
+        elif kind == "W":
+            pass
         else:
             raise vlib.ToolError("op kind " + kind)
         exp.append(e)
@@ -259,6 +261,11 @@ def js_op(op):
         return f"P(RPE({js_obj(o)}))"
     if kind == "F":
         return f"OFZ({js_obj(o)}); P(true)"
+    if kind == "W":
+        # o receivers with o unrelated shapes, each with an own writable data property k
+        objs = ["{" + "".join(f"z{j}: 0, " for j in range(i)) + f"{k}: 0}}" for i in range(o)]
+        call = (lambda x: f"g{k}({x})") if op["d"] == "G" else (lambda x: f"s{k}({x}, 0)")
+        return "; ".join(call(x) for x in objs) + "; P(true)"
     raise vlib.ToolError("op kind " + kind)
 
 
@@ -421,6 +428,9 @@ def canon(ops, uq, glob):
         return kmap[x]
     out = []
     for i, op in enumerate(ops):
+        if op["op"] == "W":
+            out.append(dict(op="W", o=op["o"], k=kk(op["k"]), d=op["d"], p=0, t=i + 1))
+            continue
         out.append(dict(op=op["op"], o=oo(op["o"]), k=kk(op["k"]), d=op["d"], p=oo(op["p"]), t=i + 1))
     nuq = [False] * NOBJ
     for old, new in omap.items():
@@ -439,6 +449,8 @@ def sig_text(ops, uq, glob):
             parts.append(f"D{op['o']}{op['k']}:{op['d']}")
         elif kind == "P":
             parts.append(f"P{op['o']}>{op['p']}")
+        elif kind == "W":
+            parts.append(f"W{op['d']}{op['k']}x{op['o']}")
         else:
             parts.append(f"{kind}{op['o']}")
     shapes = "".join(("g" if glob == i + 1 else "u" if uq[i] else "s") for i in range(NOBJ))
@@ -507,14 +519,82 @@ def shrink_all(runner, fails):
 # ----------------------------------------------------------------------------- the check
 
 TIERS = {
-    "quick": dict(cfgs=["MCInlineCache_quick.cfg"], sim=None, floor=300, gc_every=10,
-                  design=False),
-    "thorough": dict(cfgs=["MCInlineCache_thorough.cfg"],
-                     sim=("MCInlineCache_sim.cfg", 3000, 20), floor=5000, gc_every=10, design=True),
+    "quick": dict(H=3, wide=False, sim=None, floor=300, gc_every=10, design=False),
+    "thorough": dict(H=4, wide=True, sim=(3000, 9, 20), floor=5000, gc_every=10, design=True),
 }
-BASE_ACTIONS = ["GetHit", "GetMiss", "SetHit", "SetMiss", "Define", "Delete", "SetProto", "PreventExt", "Freeze"]
-for _t in TIERS.values():
-    _t["actions"] = BASE_ACTIONS
+BASE_ACTIONS = ["GetHit", "GetMiss", "SetHit", "SetMiss", "NameHit", "NameMiss", "Define", "Delete", "SetProto", "PreventExt",
+                "Freeze", "Warm"]
+NCAT = 15
+
+CFG_TEMPLATE = """SPECIFICATION Spec
+CONSTANTS
+  N = 3
+  Keys = {{"a", "b"}}
+  FixProto = {F1}
+  FixUnique = {F2}
+  FixSetter = {F3}
+  FixRollback = {F4}
+  H = {H}
+  CatSel = {{{cats}}}
+  Wide = {wide}
+{invs}
+CHECK_DEADLOCK FALSE
+"""
+GATE_INVS = ["TypeOK", "NoClobber", "EsInv"]
+DESIGN_INVS = ["TypeOK", "NoClobber", "Transparent", "ShapeDenotes", "Refines", "TraceEqual"]
+
+
+def write_cfg(name, fixes, H, wide, invs, cats=None):
+    """Configs are generated (the committed MCInlineCache_*.cfg are the same for the pinned tree): the repair
+    switches of the implementation-shaped model follow what the probes find in the tree under test."""
+    tf = lambda x: "TRUE" if x else "FALSE"
+    text = CFG_TEMPLATE.format(F1=tf(fixes["F1"]), F2=tf(fixes["F2"]), F3=tf(fixes["F3"]), F4=tf(fixes["F4"]), H=H,
+                               cats=", ".join(str(c) for c in (cats or range(1, NCAT + 1))), wide=tf(wide),
+                               invs="\n".join("INVARIANT " + i for i in invs))
+    os.makedirs(os.path.join(vlib.WORK, "c06"), exist_ok=True)
+    path = os.path.join(vlib.WORK, "c06", f"{name}-{os.getpid()}.cfg")
+    with open(path, "w") as f:
+        f.write(text)
+    return path
+
+
+# one minimal witness per design flaw of the pinned tree: (uq, ops in sig_text syntax)
+PROBES = {
+    "F1": ([False, False, False], "P1>2 D2a:dw G1a X2a G1a"),
+    "F2": ([True, False, False], "S1a S1a D1a:dr S1a"),
+    "F3": ([False, False, False], "D1a:as S1a D1a:ag S1a"),
+    "F4": ([False, False, False], "D1a:dw S1b D1a:dr X1b"),
+}
+
+
+def parse_ops(text):
+    ops = []
+    for t, w in enumerate(text.split(), 1):
+        kind = w[0]
+        if kind == "D":
+            head, d = w.split(":")
+            ops.append(dict(op="D", o=int(head[1]), k=head[2], d=d, p=0, t=t))
+        elif kind == "P":
+            o, p_ = w[1:].split(">")
+            ops.append(dict(op="P", o=int(o), k="-", d="-", p=int(p_), t=t))
+        elif kind in "GSXN":
+            ops.append(dict(op=kind, o=int(w[1]), k=w[2], d="-", p=0, t=t))
+        else:
+            ops.append(dict(op=kind, o=int(w[1]), k="-", d="-", p=0, t=t))
+    return ops
+
+
+def detect_repairs(runner):
+    """Which of the known design flaws does the tree under test still have?  (The answer only selects the
+    variant of the implementation-shaped model that explains known findings and predicts hit/miss; the pass
+    criterion is always equality with the reference trace.)"""
+    items = []
+    for f, (uq, text) in PROBES.items():
+        ops = parse_ops(text)
+        items.append((f, ops, uq, 0, expect_for(ops)))
+    res = runner.judge(items)
+    return {f: res[f][0] is None for f in PROBES}
+
 
 # signatures of the known findings = the design flaw of the pinned tree (InlineCache.tla) that fires first in a
 # history whose cached and uncached traces are exactly the ones the model of the pinned tree predicts
@@ -535,11 +615,12 @@ def run(tier, replay=None):
     conf = TIERS[tier]
     bindir = vlib.build_harness(["hic"])
     runner = Runner(bindir)
+    fixes = detect_repairs(runner)
+    ck.cov["repairs_present_in_tree"] = fixes
+    vlib.log(f"[C06] design flaws still present in the tree: {[f for f in sorted(fixes) if not fixes[f]] or 'none'}")
     recs = []
     states = trans = 0
     cmds = []
-    # model gate: the emission configs also check TypeOK (well-formedness of the three graphs and of the sites),
-    # NoClobber and EsInv (ECMA-262 6.1.7.3 along every step of the reference graph) in every state
     if conf["design"]:
         # the mechanism model itself: repaired design verified, pinned design refuted (documentation of the flaws)
         rf = vlib.run_tlc(MC, "MCInlineCache_fixed.cfg", workers=8, timeout=1500)
@@ -549,23 +630,25 @@ def run(tier, replay=None):
             vlib.log(rp["raw_tail"][-1500:])
             raise vlib.ToolError("TLC no longer refutes Transparent/ShapeDenotes on the model of the pinned design")
         ck.cov["design"] = {"repaired_design_states": rf["distinct"], "repaired_design_invariants":
-                            "TypeOK NoClobber Transparent ShapeDenotes Refines TraceEqual hold",
-                            "pinned_design": rp["violation"]}
+                            " ".join(DESIGN_INVS) + " hold", "pinned_design": rp["violation"]}
         cmds += [rf["cmd"], rp["cmd"]]
         vlib.log(f"[C06] design: repaired design verified ({rf['distinct']} states), pinned design refuted: {rp['violation']}")
-    for cfg in conf["cfgs"]:
-        r = vlib.run_tlc(MC, cfg, workers=8, timeout=1700)
-        vlib.tlc_must_pass(r, "MCInlineCache/" + cfg)
-        states += r["distinct"]
-        trans += r["states"]
-        cmds.append(r["cmd"])
-        recs += [o for tag, o in r["tagged"] if tag == "REPLAY"]
-        vlib.log(f"[C06] TLC {cfg}: {r['distinct']} distinct states, {len(recs)} histories, {r['wall']:.0f}s")
+    # emission + model gate in one run: TypeOK (well-formedness of the three graphs and of the sites), NoClobber
+    # and EsInv (ECMA-262 6.1.7.3 along every step of the reference graph) are checked in every state
+    cfg = write_cfg(tier, fixes, conf["H"], conf["wide"], GATE_INVS + ["Emit"])
+    r = vlib.run_tlc(MC, cfg, workers=8, timeout=1700)
+    vlib.tlc_must_pass(r, "MCInlineCache/" + tier)
+    states += r["distinct"]
+    trans += r["states"]
+    cmds.append(r["cmd"])
+    recs += [o for tag, o in r["tagged"] if tag == "REPLAY"]
+    vlib.log(f"[C06] TLC {tier}: {r['distinct']} distinct states, {len(recs)} histories, {r['wall']:.0f}s")
     n_exh = len(recs)
     if conf["sim"]:
-        cfg, num, depth = conf["sim"]
+        num, hsim, depth = conf["sim"]
+        cfg = write_cfg(tier + "-sim", fixes, hsim, True, ["Emit"])
         r = vlib.run_tlc(MC, cfg, workers=1, simulate=num, depth=depth, tseed=vlib.seed(), timeout=900)
-        vlib.tlc_must_pass(r, "MCInlineCache/" + cfg)
+        vlib.tlc_must_pass(r, "MCInlineCache/simulate")
         cmds.append(r["cmd"])
         seen = set()
         for tag, o in r["tagged"]:
@@ -574,10 +657,10 @@ def run(tier, replay=None):
                 seen.add(key)
                 recs.append(o)
         ck.cov["simulated_histories"] = len(recs) - n_exh
-        vlib.log(f"[C06] TLC -simulate {cfg}: {len(recs) - n_exh} distinct histories, {r['wall']:.0f}s")
+        vlib.log(f"[C06] TLC -simulate: {len(recs) - n_exh} distinct histories of {hsim} free operations, {r['wall']:.0f}s")
     if not recs:
         raise vlib.ToolError("TLC emitted no histories")
-    check_coverage(recs, ck, conf["actions"])
+    check_coverage(recs, ck, BASE_ACTIONS)
     ck.cov["checker_cmd"] = "; ".join(cmds)
 
     # the three traces TLC prescribes / predicts; the Python mirror of the reference must agree on every
@@ -585,8 +668,6 @@ def run(tier, replay=None):
     items, pred = [], {}
     for i, rec in enumerate(recs):
         ops = ops_of(rec)
-        if any(o["op"] == "W" for o in ops):
-            raise vlib.ToolError("W operations need the extended renderer")
         exp = expected_steps(ops, [e["e"] for e in rec["log"]], rec["final"])
         if norm(exp) != norm(expect_for(ops)):
             raise vlib.ToolError(f"Python mirror of Shapes.tla disagrees with TLC on {sig_text(ops, rec['uq'], rec['glob'])}")
@@ -630,7 +711,8 @@ def run(tier, replay=None):
                 hits_total += c[0]
                 if c[0] >= 1 and mutated:
                     nt = True
-                if c[:2] != ([1, 0] if e["hit"] else [0, 1]):
+                # (a megamorphic site reports neither a hit nor a miss)
+                if c[:2] != [1, 0] if e["hit"] else c[0] != 0:
                     ck.drift += 1
                     if len(drift_examples) < 5:
                         drift_examples.append(f"{sig_text(ops, uq, glob)} @op{i + 1}: model {'hit' if e['hit'] else 'miss'}, "
